@@ -67,6 +67,11 @@ void ares_cancel(ares_channel_t *channel)
       query                   = ares_llist_node_claim(node);
       query->node_all_queries = NULL;
 
+      /* Fully unlink the query first: the callback may start new queries, and
+       * a failure while sending one could otherwise requeue and complete this
+       * query again through the connection it is still attached to. */
+      ares_detach_query(query);
+
       /* NOTE: its possible this may enqueue new queries */
       query->callback(query->arg, ARES_ECANCELLED, 0, NULL);
       ares_free_query(query);
